@@ -620,7 +620,7 @@ class CallMixin:
         if is_exc:
             self.event("new_exc", cls=q, args=args)
             return Sym("exc", RefV(q), tuple(args), _kw(kwargs))
-        obj = ObjV(q, {}, label=f"new:{ci.name}@{self.cur_where}")
+        obj = ObjV(q, {}, label=f"new:{ci.name}")
         obj.init_args = (list(args), dict(kwargs))
         self.event("new_obj", cls=q, obj=obj, args=args, kwargs=dict(kwargs))
         r = self.repo.lookup_method(q, "__init__")
